@@ -190,6 +190,28 @@ Definition shortest_commit2 (dis : option (list id)) (k : id) (segs : list (@tab
   | Some keys => if set_has k keys then set_shortest k keys else shortest_len k segs
   | None => shortest_len k segs
   end.
+(** ... and for change ids (id_prefix.rs:222-290): the set's change ids first; a match is
+    then resolved in the repo by its full id (resolve_change_id) *)
+Definition resolve_change2 (dis : option (list id)) (pfx : id) (segs : list (@table (list nat)))
+    : resolution (id * list nat) :=
+  let fallback := resolve_change pfx segs in
+  match dis with
+  | None => fallback
+  | Some keys =>
+    match set_resolve pfx keys with
+    | NoMatch => fallback
+    | SingleMatch k => match resolve_change k segs with
+                       | SingleMatch r => SingleMatch r
+                       | _ => NoMatch
+                       end
+    | AmbiguousMatch => AmbiguousMatch
+    end
+  end.
+Definition shortest_change2 (dis : option (list id)) (k : id) (segs : list (@table (list nat))) : nat :=
+  match dis with
+  | Some keys => if set_has k keys then set_shortest k keys else shortest_len k segs
+  | None => shortest_len k segs
+  end.
 (** id_prefix.rs:299 disambiguate_prefix_with_refs: lengthen while the prefix is a bookmark
     or tag name *)
 Fixpoint refs_len_from (fuel n : nat) (k : id) (names : list id) : nat :=
@@ -213,7 +235,9 @@ Inductive query :=
 | QResChange (pfx : id) (r : res) (vis : list bool)     (* change prefix -> change id, positions desc, Visible? *)
 | QShortCommit2 (k : id) (len : nat)                    (* IdPrefixIndex::shortest_commit_prefix_len_exact *)
 | QResCommit2 (pfx : id) (r : res)                      (* IdPrefixIndex::resolve_commit_prefix *)
-| QRefsLen (k : id) (names : list id) (min_len len : nat). (* shortest_commit_prefix_len incl. refs *)
+| QRefsLen (k : id) (names : list id) (min_len len : nat) (* shortest_commit_prefix_len incl. refs *)
+| QShortChange2 (k : id) (len : nat)                    (* IdPrefixIndex::shortest_change_prefix_len *)
+| QResChange2 (pfx : id) (r : res).                     (* IdPrefixIndex::resolve_change_prefix *)
 
 Record case := mk_case {
   (* one entry per index segment, newest first; a segment lists (commit id, change id) by
@@ -221,6 +245,7 @@ Record case := mk_case {
   c_segs : list (nat * list (id * id));
   c_visible : list nat;                 (* global positions reachable from the view's heads *)
   c_dis : option (list id);             (* commit ids of the disambiguation set *)
+  c_dis_changes : option (list id);     (* the change ids of those commits (with repetitions) *)
   c_queries : list query;
   c_panicked : bool;
 }.
@@ -267,6 +292,8 @@ Definition query_corr (c : case) (cs : list (@table unit)) (hs : list (@table (l
   | QShortCommit2 k len => (shortest_commit2 (c_dis c) k cs =? len)%nat
   | QResCommit2 pfx r => res_eqb (res_of_commit (resolve_commit2 (c_dis c) pfx cs)) r
   | QRefsLen k names m len => (disambiguate_with_refs k names m =? len)%nat
+  | QShortChange2 k len => (shortest_change2 (c_dis_changes c) k hs =? len)%nat
+  | QResChange2 pfx r => res_eqb (res_of_change (resolve_change2 (c_dis_changes c) pfx hs)) r
   end.
 
 (** ** the property, checked on the implementation's answers against the flat id lists *)
@@ -342,6 +369,34 @@ Section Checker.
             end
           end
         | None => res_spec pfx all_commits r (fun _ => [])
+        end
+    | QShortChange2 k len =>
+        match c_dis_changes c with
+        | Some keys => if set_has k keys then
+                         (1 <=? len)%nat && (len <=? length k)%nat &&
+                         forallb (fun x => negb (matches (firstn len k) x)) (others k keys) &&
+                         ((len =? 1)%nat || existsb (matches (firstn (len - 1) k)) (others k keys))
+                       else short_ok k len all_changes
+        | None => short_ok k len all_changes
+        end
+    | QResChange2 pfx r =>
+        match c_dis_changes c with
+        | Some keys =>
+          match pfx with
+          | [] => match r with RAmb => true | _ => false end
+          | _ =>
+            match count_matching pfx keys with
+            | [] => res_spec pfx all_changes r change_positions
+            | k :: rest =>
+                if forallb (id_eqb k) rest
+                then match r with
+                     | ROne k' ps => id_eqb k k' && lnat_eqb ps (change_positions k)
+                     | _ => false
+                     end
+                else match r with RAmb => true | _ => false end
+            end
+          end
+        | None => res_spec pfx all_changes r change_positions
         end
     | QRefsLen k names m len =>
         (* the shown length is not a ref name (unless it is the full id), and every length
